@@ -579,7 +579,7 @@ def build_optimized_tables(
             )
         # Clean up table
         tbl = clamp_table_small_numbers(t["array"], rtol=rtol, atol=atol)
-        tabletype = analyse_table_type(tbl)
+        tabletype = analyse_table_type(tbl, rtol=rtol, atol=atol)
 
         if tabletype in piecewise_ttypes:
             # Reduce table to dimension 1 along num_points axis in generated code
@@ -587,7 +587,7 @@ def build_optimized_tables(
         if tabletype in uniform_ttypes:
             # Reduce table to dimension 1 along num_entities axis in generated code
             tbl = tbl[:, :1, :, :]
-        is_permuted = is_permuted_table(tbl)
+        is_permuted = is_permuted_table(tbl, rtol=rtol, atol=atol)
         if not is_permuted:
             # Reduce table along num_perms axis
             tbl = tbl[:1, :, :, :]
@@ -595,8 +595,7 @@ def build_optimized_tables(
         # Check for existing identical table
         is_new_table = True
         for table_name in _existing_tables:
-            # FIXME: should we pass in atol and rtol here?
-            if equal_tables(tbl, _existing_tables[table_name]):
+            if equal_tables(tbl, _existing_tables[table_name], rtol=rtol, atol=atol):
                 name = table_name
                 tbl = _existing_tables[name]
                 is_new_table = False
@@ -628,7 +627,7 @@ def build_optimized_tables(
                 sub_tbl = sub_tbl.reshape(1, 1, sub_tbl.shape[0], sub_tbl.shape[1])
                 for tensor_factor in all_tensor_factors:
                     if tensor_factor.values.shape == sub_tbl.shape and np.allclose(
-                        tensor_factor.values, sub_tbl
+                        tensor_factor.values, sub_tbl, rtol=rtol, atol=atol
                     ):
                         tensor_factors.append(tensor_factor)
                         break
